@@ -489,7 +489,7 @@ pub struct Runner {
     no_park: bool,
 }
 
-pub const WATCHDOG_SECS: u64 = 10;
+pub const WATCHDOG_SECS: u64 = 60;
 
 type HResult<T> = Result<T, String>;
 
